@@ -55,7 +55,8 @@ Record rmachine := {
   rm_trans : list rtrans;        (* declaration order; a state's list is the sub-sequence with that source *)
   rm_start : nat;                (* _get_initial_state(): start_value's state or the initial state *)
   rm_rtc : bool;
-  rm_allow : bool }.             (* allow_event_without_transition *)
+  rm_allow : bool;               (* allow_event_without_transition *)
+  rm_async : bool }.             (* some registered callback is a coroutine function: AsyncEngine *)
 
 (* ---------- triggers, exceptions, scripts ---------- *)
 Record tdata := { td_ev : option nat;   (* None = "__initial__" *)
@@ -65,6 +66,7 @@ Inductive exn :=
 | XUser (n : nat)                      (* raised by a user callback *)
 | XNotAllowed (e : nat) (s : nat)      (* TransitionNotAllowed(event, state) *)
 | XNoState                             (* InvalidStateValue: there is no current state *)
+| XInvalidDef                          (* InvalidDefinition raised by the constructor *)
 | XIndex.                              (* IndexError: pop from an empty deque *)
 
 Inductive action :=
@@ -75,8 +77,17 @@ Record script := { acts : list action; ret : pyval }.
 
 Definition behaviour := cbref -> nat -> script.
 
-(* what a callback observed *)
-Inductive nested_outcome := NReturned (v : pyval) | NRaised (x : exn).
+
+(* the result of an executed transition is kept as (before results, on results) until it is handed
+   to Python code, where it becomes [res_val]: None / the single value / the list *)
+Definition unwrap (l : list pyval) : pyval :=
+  match l with [] => VNone | [v] => v | _ => VList l end.
+Definition pyres := (list pyval * list pyval)%type.
+Definition res_val (r : pyres) : pyval := unwrap (fst r ++ snd r).
+Definition no_res : pyres := ([], []).
+
+(* what a callback observed (a returned value is kept as its two parts, see above) *)
+Inductive nested_outcome := NReturned (v : pyres) | NRaised (x : exn).
 
 Inductive entry :=
 | ECall (act : nat) (g : group) (cb : cbref) (ev : option nat) (src : option nat) (tgt : nat)
@@ -144,7 +155,8 @@ Definition with_state (x : ctx) (s : option nat) : ctx :=
 Section Engine.
   Variable beh : behaviour.
   (* what machine.send(...) does when called from inside a callback *)
-  Variable nested : tdata -> cfg -> res pyval.
+  Variable nested : tdata -> cfg -> res pyres.
+  Variable rm : rmachine.
 
   Fixpoint run_acts (l : list action) (c : cfg) : res unit :=
     match l with
@@ -190,8 +202,19 @@ Section Engine.
     | Some e => match x_ev x with Some e' => Nat.eqb e e' | None => false end
     end.
 
-  Definition has_acts (c : cfg) (w : wrapper) : bool :=
-    existsb (fun cb => match acts (beh cb (count_calls cb (calls c))) with [] => false | _ => true end) (w_cbs w).
+  (* in-group order is left open by the documentation; it shows only when two callbacks of one group
+     execution send events, or when one raises while another one is present (under rtc=False a send
+     runs the nested event at once, so any acting callback next to another one shows it) *)
+  Definition cur_script (c : cfg) (cb : cbref) : script := beh cb (count_calls cb (calls c)).
+  Definition is_send (a : action) : bool := match a with ASend _ _ => true | _ => false end.
+  Definition is_raise (a : action) : bool := match a with ARaise _ => true | _ => false end.
+  Definition order_shows (c : cfg) (cbs : list cbref) : bool :=
+    let scripts := map (cur_script c) cbs in
+    let senders := length (filter (fun s => existsb is_send (acts s)) scripts) in
+    let raisers := existsb (fun s => existsb is_raise (acts s)) scripts in
+    let actors := existsb (fun s => match acts s with [] => false | _ => true end) scripts in
+    Nat.ltb 1 (length cbs)
+    && (if rm_rtc rm then Nat.ltb 1 senders || raisers else actors).
 
   Definition ncbs (ws : list wrapper) : nat := length (flat_map w_cbs ws).
 
@@ -207,7 +230,7 @@ Section Engine.
 
   Definition call_group (g : group) (x : ctx) (ws : list wrapper) (c : cfg) : res (list pyval) :=
     let adm := filter (admitted x) ws in
-    let c0 := if Nat.ltb 1 (ncbs adm) && existsb (has_acts c) adm then set_amb c true else c in
+    let c0 := if order_shows c (flat_map w_cbs adm) then set_amb c true else c in
     call_list g x adm c0.
 
   (* CallbacksExecutor.all: stop at the first wrapper whose value is false *)
@@ -219,13 +242,21 @@ Section Engine.
         if truthy v then all_list g x r c1 else Ok c1 false
     end.
 
-  Definition all_group (g : group) (x : ctx) (ws : list wrapper) (c : cfg) : res bool :=
-    let c0 := if Nat.ltb 1 (ncbs ws) && existsb (has_acts c) ws then set_amb c true else c in
-    do (c1, b) <- all_list g x ws c0;
-    Ok (if negb b && Nat.ltb 1 (ncbs ws) then set_ambc c1 true else c1) b.
+  (* CallbacksExecutor.async_all: every guard coroutine is created and scheduled
+     (asyncio.as_completed), so all of them run; the value is still the conjunction *)
+  Fixpoint all_list_async (g : group) (x : ctx) (ws : list wrapper) (c : cfg) : res bool :=
+    match ws with
+    | [] => Ok c true
+    | w :: r =>
+        do (c1, v) <- run_wrapper g x w c;
+        do (c2, b) <- all_list_async g x r c1;
+        Ok c2 (truthy v && b)
+    end.
 
-  Definition unwrap (l : list pyval) : pyval :=
-    match l with [] => VNone | [v] => v | _ => VList l end.
+  Definition all_group (g : group) (x : ctx) (ws : list wrapper) (c : cfg) : res bool :=
+    let c0 := if order_shows c (flat_map w_cbs ws) then set_amb c true else c in
+    do (c1, b) <- (if rm_async rm then all_list_async g x ws c0 else all_list g x ws c0);
+    Ok (if negb b && Nat.ltb 1 (ncbs ws) && negb (rm_async rm) then set_ambc c1 true else c1) b.
 
   (* what _activate needs to know about the (pseudo-)transition *)
   Record atrans := {
@@ -234,13 +265,13 @@ Section Engine.
     a_exit : list wrapper; a_on : list wrapper; a_enter : list wrapper; a_after : list wrapper }.
 
   (* SyncEngine._activate *)
-  Definition activate (t : atrans) (td : tdata) (c : cfg) : res (bool * pyval) :=
+  Definition activate (t : atrans) (td : tdata) (c : cfg) : res (bool * pyres) :=
     let x := {| x_act := nact c; x_ev := td_ev td; x_src := a_src t; x_tgt := a_tgt t;
                 x_state := a_src t; x_tag := td_tag td |} in
     let c := set_nact c (S (nact c)) in
     do (c, _v) <- call_group GValidators x (a_validators t) c;
     do (c, ok) <- all_group GCond x (a_cond t) c;
-    if negb ok then Ok c (false, VNone) else
+    if negb ok then Ok c (false, no_res) else
     do (c, rb) <- call_group GBefore x (a_before t) c;
     do (c, _e) <- (if a_internal t then Ok c [] else call_group GExit x (a_exit t) c);
     do (c, ro) <- call_group GOn x (a_on t) c;
@@ -248,9 +279,7 @@ Section Engine.
     let x := with_state x (Some (a_tgt t)) in
     do (c, _n) <- (if a_internal t then Ok c [] else call_group GEnter x (a_enter t) c);
     do (c, _a) <- call_group GAfter x (a_after t) c;
-    Ok c (true, unwrap (rb ++ ro)).
-
-  Variable rm : rmachine.
+    Ok c (true, (rb, ro)).
 
   Definition state_enter (s : nat) : list wrapper :=
     match nth_error (rm_states rm) s with Some st => rs_enter st | None => [] end.
@@ -273,9 +302,9 @@ Section Engine.
 
   (* the candidate loop of _trigger: first executed wins *)
   Fixpoint try_candidates (cands : list rtrans) (e : nat) (s : nat) (td : tdata) (c : cfg)
-    : res (option pyval) :=
+    : res (option pyres) :=
     match cands with
-    | [] => if rm_allow rm then Ok c (Some VNone) else Exn c (XNotAllowed e s)
+    | [] => if rm_allow rm then Ok c (Some no_res) else Exn c (XNotAllowed e s)
     | t :: r =>
         if matches t e then
           do (c1, er) <- activate (atrans_of t) td c;
@@ -286,7 +315,7 @@ Section Engine.
   Definition outs (s : nat) : list rtrans := filter (fun t => Nat.eqb (rt_src t) s) (rm_trans rm).
 
   (* SyncEngine._trigger; the result None stands for the private sentinel *)
-  Definition trigger (td : tdata) (c : cfg) : res (option pyval) :=
+  Definition trigger (td : tdata) (c : cfg) : res (option pyres) :=
     let d := depth c in
     let c := set_depth c (S d) in
     let r :=
@@ -307,12 +336,12 @@ Section Engine.
     end.
 
   (* the `while self._external_queue` loop of processing_loop (lock already held) *)
-  Fixpoint drain (fuel : nat) (c : cfg) (first : option pyval) : res pyval :=
+  Fixpoint drain (fuel : nat) (c : cfg) (first : option pyres) : res pyres :=
     match fuel with
     | 0 => Fuel
     | S f =>
         match queue c with
-        | [] => Ok (set_locked c false) (match first with Some v => v | None => VNone end)
+        | [] => Ok (set_locked c false) (match first with Some v => v | None => no_res end)
         | td :: q =>
             match trigger td (set_queue c q) with
             | Ok c1 r => drain f c1 (match first with Some _ => first | None => r end)
@@ -328,25 +357,25 @@ Arguments a_src : clear implicits.
 (* ---------- the three ways `send` is wired ---------- *)
 
 (* faithful run-to-completion entry point: Event.__call__ = put; processing_loop (try-lock) *)
-Fixpoint send_rtc (beh : behaviour) (rm : rmachine) (fuel : nat) (td : tdata) (c : cfg) : res pyval :=
+Fixpoint send_rtc (beh : behaviour) (rm : rmachine) (fuel : nat) (td : tdata) (c : cfg) : res pyres :=
   match fuel with
   | 0 => Fuel
   | S f =>
       let c1 := enqueue td c in
-      if locked c1 then Ok c1 VNone
+      if locked c1 then Ok c1 no_res
       else drain beh (send_rtc beh rm f) rm f (set_locked c1 true) None
   end.
 
 (* run-to-completion as the documentation describes it: a send from a callback only enqueues *)
-Definition flat_nested (td : tdata) (c : cfg) : res pyval := Ok (enqueue td c) VNone.
+Definition flat_nested (td : tdata) (c : cfg) : res pyres := Ok (enqueue td c) no_res.
 
-Definition send_flat (beh : behaviour) (rm : rmachine) (fuel : nat) (td : tdata) (c : cfg) : res pyval :=
+Definition send_flat (beh : behaviour) (rm : rmachine) (fuel : nat) (td : tdata) (c : cfg) : res pyres :=
   let c1 := enqueue td c in
-  if locked c1 then Ok c1 VNone
+  if locked c1 then Ok c1 no_res
   else drain beh flat_nested rm fuel (set_locked c1 true) None.
 
 (* rtc=False: put; popleft; _trigger - nested sends run immediately, depth first *)
-Fixpoint send_nonrtc (beh : behaviour) (rm : rmachine) (fuel : nat) (td : tdata) (c : cfg) : res pyval :=
+Fixpoint send_nonrtc (beh : behaviour) (rm : rmachine) (fuel : nat) (td : tdata) (c : cfg) : res pyres :=
   match fuel with
   | 0 => Fuel
   | S f =>
@@ -355,30 +384,33 @@ Fixpoint send_nonrtc (beh : behaviour) (rm : rmachine) (fuel : nat) (td : tdata)
       | [] => Exn c1 XIndex
       | td0 :: q =>
           do (c2, r) <- trigger beh (send_nonrtc beh rm f) rm td0 (set_queue c1 q);
-          Ok c2 (match r with Some v => v | None => VNone end)
+          Ok c2 (match r with Some v => v | None => no_res end)
       end
   end.
 
-Definition send (beh : behaviour) (rm : rmachine) (fuel : nat) (td : tdata) (c : cfg) : res pyval :=
-  if rm_rtc rm then send_rtc beh rm fuel td c else send_nonrtc beh rm fuel td c.
+Definition send (beh : behaviour) (rm : rmachine) (fuel : nat) (td : tdata) (c : cfg) : res pyres :=
+  if rm_rtc rm || rm_async rm then send_rtc beh rm fuel td c else send_nonrtc beh rm fuel td c.
 
 (* activate_initial_state() / the end of SyncEngine.start(): processing_loop without a put *)
-Definition run_loop (beh : behaviour) (rm : rmachine) (fuel : nat) (c : cfg) : res pyval :=
-  if rm_rtc rm then
-    if locked c then Ok c VNone
+Definition run_loop (beh : behaviour) (rm : rmachine) (fuel : nat) (c : cfg) : res pyres :=
+  if rm_rtc rm || rm_async rm then
+    if locked c then Ok c no_res
     else drain beh (send_rtc beh rm fuel) rm fuel (set_locked c true) None
   else
     match queue c with
     | [] => Exn c XIndex
     | td0 :: q =>
         do (c2, r) <- trigger beh (send_nonrtc beh rm fuel) rm td0 (set_queue c q);
-        Ok c2 (match r with Some v => v | None => VNone end)
+        Ok c2 (match r with Some v => v | None => no_res end)
     end.
 
 (* BaseEngine.start + SyncEngine.start: enqueue __initial__ only when no state is stored, then loop *)
-Definition construct (beh : behaviour) (rm : rmachine) (fuel : nat) (c : cfg) : res pyval :=
+Definition construct (beh : behaviour) (rm : rmachine) (fuel : nat) (c : cfg) : res pyres :=
   let c1 := match field c with
             | None => enqueue {| td_ev := None; td_tag := 0 |} c
             | Some _ => c
             end in
-  run_loop beh rm fuel c1.
+  if rm_async rm then
+    (* AsyncEngine: rtc=False is refused; nothing is processed by the constructor *)
+    if rm_rtc rm then Ok c1 no_res else Exn c XInvalidDef
+  else run_loop beh rm fuel c1.
